@@ -25,7 +25,8 @@ def main():
     out = "/verif/seeded/" + tag
     os.makedirs(out, exist_ok=True)
     for f in ("patch.diff", "demo.diff", "meta.json"):
-        if os.path.exists(os.path.join(src, f)):
+        # (a re-evaluation keeps the stored meta.json: it carries the confirmation and the earlier rounds)
+        if os.path.exists(os.path.join(src, f)) and not (f == "meta.json" and skip and os.path.exists(os.path.join(out, f))):
             shutil.copy(os.path.join(src, f), os.path.join(out, f))
     meta = json.load(open(os.path.join(out, "meta.json")))
     wt = "/tmp/ev_" + tag
